@@ -273,6 +273,18 @@ var faultLike = []string{
 	"SELECT '😀' AS \"ключ\" FROM t",
 	"SELECT 1e",
 	"SELECT 1 FROM t WHERE a IN (SELECT b FROM u WHERE c IN (SELECT d FROM v WHERE",
+	// escapes inside string literals: valid, invalid, and a backslash as the last byte
+	"SELECT 'it\\'s', 'tab\\t', 'nl\\n' FROM t",
+	"SELECT 'C:\\data' FROM t",
+	"SELECT 'a\\qb' FROM t WHERE x = 'y'",
+	"SELECT 'trailing\\",
+	// quoted identifiers: a line break inside one, an unterminated one, doubled quotes
+	"SELECT \"first_name\nlast_name\" FROM users",
+	"SELECT \"a\"\"b\", \"c d\" FROM \"t\"",
+	"SELECT \"unterminated",
+	"SELECT `a\nb` FROM t",
+	"SELECT $$dollar quoted$$, $tag$ x $tag$ FROM t",
+	"SELECT 'bob' AS name, \"Quoted Col\" FROM \"users\" WHERE city = 'Z\u00fcrich'",
 }
 
 // FaultLike returns a fault-like input: fixed list, deep nesting around the
